@@ -7,6 +7,12 @@
 // every sub-list of a script is a script). e = nil|e1|canceled|deadline.
 //
 //	newp                 create a plain Promise
+//	newpe e              create a Promise pre-resolved with NewPromiseWithErr(e): it holds (zero, e); it is
+//	                     never put into the container (csetp on it is skipped)
+//	checklike plain|cont run promise.CheckPromiseLike on fresh instances of Promise / PromiseContainer and log
+//	                     `env checklike plain|cont ok|fail` (≈100 ms: corpus only)
+//	checklike bad1|bad2|bad3  the same on a deliberately wrong PromiseLike (Await ignores the cancelled
+//	                     context / returns an error / returns another value): CheckPromiseLike must object
 //	set p e / aset p e   Promise p .SetResult(id+1, e), synchronously / from a new goroutine
 //	bset p k             k SetResult calls on Promise p released together by a spin barrier
 //	brace p k            one SetResult and k Await(ctx) calls on Promise p released together
@@ -77,6 +83,26 @@ func errName(err error) string {
 	return "other:" + strings.ReplaceAll(err.Error(), " ", "_")
 }
 
+// fakeLike is a deliberately wrong PromiseLike used to exercise the complaints of CheckPromiseLike.
+type fakeLike struct {
+	*promise.Promise[int]
+	mode int
+}
+
+// Await misbehaves according to mode.
+func (f fakeLike) Await(ctx context.Context) (int, error) {
+	v, err := f.Promise.Await(ctx)
+	switch {
+	case f.mode == 1:
+		return 0, nil // a cancelled context is not reported
+	case f.mode == 2 && err == nil:
+		return 0, errCustom // the result is replaced by an error
+	case f.mode == 3 && err == nil:
+		return v + 2, nil // another value
+	}
+	return v, err
+}
+
 type awaitCall struct {
 	id       int
 	kind     string
@@ -140,6 +166,7 @@ func exec(script []string, opt comp.Options) comp.Result {
 	unstable := false
 
 	var proms []*promise.Promise[int]
+	born := map[int]bool{}
 	gates := map[int]hook.Gate{}
 	gateOpen := map[int]bool{}
 	ctr := promise.NewPromiseContainer[int]()
@@ -238,6 +265,44 @@ func exec(script []string, opt comp.Options) comp.Result {
 		case "newp":
 			log.Add("env newp %d", len(proms))
 			proms = append(proms, promise.NewPromise[int]())
+		case "newpe":
+			if len(f) < 2 {
+				continue
+			}
+			e, ok := errOf(f[1])
+			if !ok {
+				continue
+			}
+			log.Add("env newpe %d %s", len(proms), f[1])
+			born[len(proms)] = true
+			proms = append(proms, promise.NewPromiseWithErr[int](e))
+			tags.Add("born-resolved")
+		case "checklike":
+			if len(f) < 2 {
+				continue
+			}
+			var ctor func() promise.PromiseLike[int]
+			switch f[1] {
+			case "plain":
+				ctor = func() promise.PromiseLike[int] { return promise.NewPromise[int]() }
+			case "cont":
+				ctor = func() promise.PromiseLike[int] { return promise.NewPromiseContainer[int]() }
+			case "bad1", "bad2", "bad3":
+				mode := int(f[1][3] - '0')
+				ctor = func() promise.PromiseLike[int] { return fakeLike{promise.NewPromise[int](), mode} }
+			default:
+				continue
+			}
+			cctx, ccancel := context.WithTimeout(context.Background(), 3*time.Second)
+			err := promise.CheckPromiseLike(cctx, ctor)
+			ccancel()
+			if err == nil {
+				log.Add("env checklike %s ok", f[1])
+			} else {
+				log.Add("env checklike %s fail", f[1])
+				tags.Add("checklike-error:" + strings.ReplaceAll(err.Error(), " ", "_"))
+			}
+			tags.Add("checklike")
 		case "set", "aset":
 			if len(f) < 3 {
 				continue
@@ -378,7 +443,7 @@ func exec(script []string, opt comp.Options) comp.Result {
 				id = inv("csetp nil")
 			} else {
 				p, ok := promIdx(f[1])
-				if !ok {
+				if !ok || born[p] {
 					continue
 				}
 				pl = proms[p]
@@ -515,6 +580,15 @@ func gen(rng *rand.Rand, tier string) []string {
 	}
 	out = append(out, "newp")
 	np = 1
+	bornG := map[int]bool{}
+	plainP := func() int { // a promise that may go into the container (promise 0 always qualifies)
+		for j := 0; j < 8; j++ {
+			if p := rng.Intn(np); !bornG[p] {
+				return p
+			}
+		}
+		return 0
+	}
 	pendingSettle := 0
 	for i := 0; i < steps; i++ {
 		if pendingSettle > 0 {
@@ -526,7 +600,12 @@ func gen(rng *rand.Rand, tier string) []string {
 		r := rng.Intn(100)
 		switch {
 		case r < 12 && np < maxP && rng.Intn(2) == 0:
-			out = append(out, "newp")
+			if rng.Intn(3) == 0 {
+				out = append(out, "newpe "+e())
+				bornG[np] = true
+			} else {
+				out = append(out, "newp")
+			}
 			np++
 		case r < 5:
 			out = append(out, fmt.Sprintf("bset %d %d", rng.Intn(np), 2+rng.Intn(2)), "settle")
@@ -583,7 +662,7 @@ func gen(rng *rand.Rand, tier string) []string {
 			}
 		case r < 73 && useCont && nca < maxCA && na < maxA:
 			// removal of an unresolved promise under a parked awaiter, then its late resolution
-			p := rng.Intn(np)
+			p := plainP()
 			kk := k()
 			out = append(out, fmt.Sprintf("csetp %d", p), "cawait "+kk, "settle", "csetp nil", "quiesce",
 				fmt.Sprintf("set %d %s", p, e()), "quiesce")
@@ -598,7 +677,7 @@ func gen(rng *rand.Rand, tier string) []string {
 				curNil = true
 			} else {
 				w := sync("csetp")
-				out = append(out, fmt.Sprintf("%s %d", w, rng.Intn(np)))
+				out = append(out, fmt.Sprintf("%s %d", w, plainP()))
 				if w[0] == 'a' {
 					pendingSettle = 2
 				}
@@ -655,6 +734,14 @@ func init() {
 			{"newp", "csetp 0", "cawait ctx", "cawait errch", "cawait cancelch", "settle", "quiesce", "csetp nil", "quiesce", "set 0 nil", "quiesce", "cres e1", "quiesce"},
 			{"newp", "newp", "csetp 0", "cawait ctx", "settle", "csetp nil", "quiesce", "set 0 canceled", "settle", "csetp 1", "quiesce", "set 1 nil", "quiesce"},
 			{"newp", "csetp 0", "cawait cancelch", "cawait errch", "settle", "csetp nil", "quiesce", "set 0 e1", "quiesce", "fire 0 close", "fire 1 send deadline", "quiesce"},
+			// promises born resolved by NewPromiseWithErr: every await kind returns the stored pair at once,
+			// SetResult returns false, also when racing; one for each error value
+			{"newpe e1", "newpe canceled", "newpe nil", "newpe deadline", "await 0 ctx", "await 1 errch", "await 2 cancelch", "await 3 ctx", "set 0 nil", "aset 1 e1", "bset 2 3", "settle", "await 1 ctx", "quiesce"},
+			{"newp", "newpe deadline", "await 0 ctx", "await 1 ctx", "settle", "quiesce", "csetp 1", "csetp 0", "cawait ctx", "settle", "set 1 nil", "set 0 e1", "quiesce"},
+			// promise.CheckPromiseLike on both implementations of PromiseLike
+			{"checklike plain", "checklike cont", "quiesce"},
+			{"checklike bad1", "checklike bad2", "checklike bad3", "quiesce"},
+			{"newp", "await 0 ctx", "settle", "checklike cont", "set 0 nil", "checklike plain", "quiesce"},
 			// SetPromise with the same promise does not wake anybody; replaced by a resolved one
 			{"newp", "csetp 0", "cawait ctx", "settle", "csetp 0", "quiesce", "cres e1", "quiesce"},
 		},
